@@ -174,8 +174,8 @@ func Explore(cfg *Config) Stats {
 				}
 				t.Out = e.Apply(op, cfg.WantPre)
 				atomic.AddInt64(&trans, 1)
-				if cfg.Hook != nil && !(op.K == "W" && op.Size == 0) {
-					cfg.Hook(t)
+				if cfg.Hook != nil {
+					cfg.Hook(t) // zero-length writes included: the hook decides what is specified for them
 				}
 				if r := e.Dev.RelAccess(); r != "" {
 					relOnce.Do(func() { st.RelAccess = r })
